@@ -12,7 +12,7 @@ from xml.sax.saxutils import escape as _escape, quoteattr
 
 def escape(s):
     """text content: a carriage return only survives parsing as a character reference"""
-    return _escape(s, {"\r": "&#13;", "\x85": "&#133;", "\x7f": "&#127;", "\x9f": "&#x9F;"})
+    return _escape(s, {"\r": "&#13;", "\x85": "&#133;", "\x7f": "&#127;", "\x9f": "&#x9F;", "\ufeff": "&#xFEFF;"})
 
 
 NONE = "~"
@@ -20,12 +20,13 @@ ID_TAGS = ("storyID", "itemID", "roID", "messageID")
 
 WORDS = ["alpha", "Bravo", "čárka", "δέλτα", "echo & co", "fox<trot>", "golf \"quoted\"", "hôtel",
          "индия", "juliet's", "キロ", "lima]]>", "mike nbsp", "𝒏ovember", "🙂scar", "papa\ttab",
-         "q=1&r=2", "<!--not a comment-->", "  padded  ", "x" * 40, "carriage\rreturn", "cr\r\nlf", "nel\x85del\x7fapc\x9f"]
+         "q=1&r=2", "<!--not a comment-->", "  padded  ", "x" * 40, "carriage\rreturn", "cr\r\nlf", "nel\x85del\x7fapc\x9f", "zero\ufeffwidth"]
 TAGS = ["mosAbstract", "objSlug", "objDur", "objTB", "ncsItem", "studioCommand", "text", "b", "i",
         "custom-tag", "ns_tag", "Element.With.Dots",
         # look-alikes of structural elements, nested where they mean nothing (depth >= 3)
         "item", "story", "storyID", "itemID", "p", "roID", "mosExternalMetadata", "mosPayload", "StoryDuration",
         "storyBody", "storyItem", "roCreate", "roDelete", "mosromgrmeta", "roStorySend", "roElementAction", "messageID",
+        "storyID", "itemID", "storyID", "itemID",
         # names outside ASCII
         "r\u00e9sum\u00e9", "\u03c7\u03c1\u03cc\u03bd\u03bf\u03c2"]
 ATTRS = ["type", "techDescription", "lang", "data-x", "id", "unit\u00e9"]
@@ -39,7 +40,10 @@ LIKELY_IDS = ["S1", "S2", "S3", "N1", "N2", "SU", "I1", "I2", "I3", "J1", "J2", 
 # anything is rendered or judged (TLC then simply sees other strings).
 # ------------------------------------------------------------------------------------------
 ID_STYLES = ("plain", "plain", "prefix", "special", "case", "spaces", "long", "numeric", "words", "xpath", "verylong",
-             "unicode", "trail", "url")
+             "unicode", "trail", "url", "blanks", "suffix")
+BLANK_IDS = [" ", "  ", "\u00a0", "\u3000", "\t", "\n", " \t", "\u2003", "   ", "\u00a0 ", "\t\t", "\n ", "\u2009", " \n", "\u3000 ", "    "]
+SCHEMA_URLS = ["http://host/a", "http://host/a/", "http://[::1/mos/schema", "HTTP://Host/a", "http://[ncs-gallery]/schema",
+               "urn:x:y", "http://host/a//", "//["]
 URL_IDS = ["http://host/a", "HTTP://Host/a", "http://[::1/mos/schema", "http://[ncs-gallery]/schema", "urn:x:y", "//[",
            "http://a b/c", "file:///c:/x", "http://host:99999/x", "http://host:port/x", "http://host/a?b=1#c", "mailto:x@y",
            "http://host/%zz", "http://h\u00f6st/", "http://host/a/", "HTTP://HOST/A"]
@@ -70,11 +74,17 @@ def id_style_map(style):
             y = "a" + " " * n + "b.c"
         elif style in ("numeric", "words", "xpath", "url"):     # ids that look like numbers, keywords / tag names, path expressions
             pool = {"numeric": NUMERIC_IDS, "words": WORD_IDS, "xpath": XPATH_IDS, "url": URL_IDS}[style]
-            if style == "url" and x.startswith("sch."):           # schema names are where URLs really occur: the odd ones go there
-                pool = pool[2:8] + pool[:2] + pool[8:]
+            if style == "url" and x.startswith("sch."):           # schema names are where URLs really occur: pairs that differ
+                k = sum(1 for z in cache if z.startswith("sch."))  # by a trailing slash or by case, and malformed ones
+                pool, n = SCHEMA_URLS, k + 1
             y = pool[n - 1] if n <= len(pool) else "%s#%d" % (pool[n % len(pool)], n)
             if y in cache.values():
                 y = "%s#%d" % (y, n)
+        elif style == "blanks":        # ids that consist of white space only: distinct, and none of them is "blank"
+            y = BLANK_IDS[n - 1] if n <= len(BLANK_IDS) else " " * (n + 4)
+        elif style == "suffix":        # triples that agree after the last comma / semicolon
+            k = (n + 2) // 3
+            y = ("VT;clips,%d", "GFX;straps,%d", "%d")[n % 3] % k
         elif style == "verylong":      # ids of 300+ characters that differ only at the very end
             y = "V" * 300 + "%03d" % n
         elif style == "unicode":       # pairs that differ only by Unicode normalisation; characters outside the BMP
@@ -126,6 +136,7 @@ class Gamma:
         self.seed = seed
         self.idf = idf or (lambda x: x)       # the id style of this case (nested look-alike ids are spelled in it too)
         self.roid = lambda x: x               # how this case spells the running order's id (see ROID_STYLES)
+        self.str_decl = False
         r = random.Random("%s|style" % seed)
         self.pretty = r.random() < 0.5 if style is None else style == "pretty"
         self.decl = r.random() < 0.3
@@ -213,7 +224,10 @@ class Gamma:
                 parts.append("<mosScope>PLAYLIST</mosScope>")
             if nid != NONE:
                 parts.append("<mosSchema>%s</mosSchema>" % escape(nid))
-            if tok.startswith("tm:"):
+            if tok.startswith("tmb:"):          # timing fields that are blank or not numbers
+                pay = (["<TextTime/>", "<MediaTime>12</MediaTime>"] if r.random() < 0.5 else
+                       ["<StoryDuration>n/a</StoryDuration>"]) + [self.marker(tok)]
+            elif tok.startswith("tm:"):
                 dur = 1 + (int(hashlib.sha1(tok.encode()).hexdigest()[:4], 16) % 40)
                 pay = ["<StoryDuration>%d</StoryDuration>" % dur] if r.random() < 0.5 else \
                       ["<TextTime>%d</TextTime>" % (dur // 2), "<MediaTime>%d</MediaTime>" % (dur - dur // 2)]
@@ -228,6 +242,11 @@ class Gamma:
             if tok.startswith("w:"):            # a whitespace-only paragraph
                 return "<p>  \t </p>"
             return "<p>%s</p>" % self.chars(r, self.text(r) + " " + tok)
+        if tag.startswith("{"):            # an element of another namespace that looks like a story / an item and spells a live id
+            local = tag.split("}")[1]
+            ghost = self.idf("S2" if local == "story" else "I2")
+            return '<arc:%s xmlns:arc="%s"><%sID>%s</%sID><%sSlug>%s</%sSlug>%s</arc:%s>' % (
+                local, tag[1:].split("}")[0], local, escape(ghost), local, local, escape(self.text(r)), local, self.marker(tok), local)
         if tag == "roDelete":
             return "<roDelete><roID>%s</roID>%s</roDelete>" % (escape("RO-other" if tok.endswith(".foreign") else self.roid("RO1")),
                                                                self.marker(tok))
@@ -279,7 +298,13 @@ class Gamma:
         return self.leaf(n)
 
     def doc(self, inner):
-        head = '<?xml version="1.0" encoding="UTF-8"?>\n' if self.decl else ""
+        head = ""
+        if self.decl:
+            # a document handed over as text is already decoded: whatever encoding its declaration names does not apply
+            # (only where str_decl says the text goes to the library as a str; bytes and files get a truthful declaration)
+            enc = self.rng("decl").choice(["UTF-8", "UTF-8", "utf-8", "ISO-8859-1", "windows-1252", "US-ASCII"]) \
+                if self.str_decl else "UTF-8"
+            head = '<?xml version="1.0" encoding="%s"?>\n' % enc
         return head + inner
 
     # -------------------------------------------------------------------------------------
